@@ -87,7 +87,13 @@ func (rp *RawPeer) StreamFrames() []string {
 
 // Await blocks until a frame satisfying pred is on the background stream.
 func (rp *RawPeer) Await(what string, pred func(string) bool) (string, bool) {
-	vsched.Block("rawpeer await "+what, framesProbe{rp, pred})
+	obj := uintptr(0)
+	if rp.R.Fab == nil {
+		obj = rp.R.S2C.ObjID()
+	} else if rp.Stream != nil {
+		obj = rp.Stream.ObjID()
+	}
+	vsched.BlockObj("rawpeer await "+what, framesProbe{rp, pred}, obj, false)
 	for _, f := range rp.StreamFrames() {
 		if pred(f) {
 			return f, true
